@@ -1,0 +1,41 @@
+//! Verification hooks (only compiled with `--cfg amiquip_verif`): re-exports of internal units
+//! for an external test harness. Nothing here is used by the library itself.
+
+pub use crate::frame_buffer::FrameBuffer;
+pub use crate::io_loop::verif::{
+    batch_trace_enable, batch_trace_take, Collected, CollectorProbe, SlotsProbe,
+};
+
+use crate::{Auth, ConnectionOptions, Result};
+use amq_protocol::protocol::connection::{Tune, TuneOk};
+use std::time::Duration;
+
+/// Negotiate a TuneOk from client-side limits and the server's Tune.
+pub fn tune_ok(channel_max: u16, frame_max: u32, heartbeat: u16, tune: Tune) -> Result<TuneOk> {
+    ConnectionOptions::<Auth>::default()
+        .channel_max(channel_max)
+        .frame_max(frame_max)
+        .heartbeat(heartbeat)
+        .make_tune_ok(tune)
+}
+
+/// What an AMQP URL decodes to.
+#[derive(Debug, Clone, PartialEq)]
+pub struct DecodedUrl {
+    pub secure: bool,
+    pub host: String,
+    pub port: u16,
+    pub auth: Auth,
+    pub virtual_host: String,
+    pub locale: String,
+    pub channel_max: u16,
+    pub frame_max: u32,
+    pub heartbeat: u16,
+    pub connection_timeout: Option<Duration>,
+    pub information: Option<String>,
+}
+
+/// Decode an AMQP URL exactly as `Connection::insecure_open` would, without connecting.
+pub fn decode_url(url: &str) -> Result<DecodedUrl> {
+    crate::connection::verif_decode_url(url)
+}
